@@ -7,34 +7,49 @@
 (* the matched segments. The printed form is a sequence of tokens:                                           *)
 (*   <<"g", segment>> default rendering of a segment   <<"r", k>> replacement string k                      *)
 (*   <<"b", mark>> a boundary / stress mark ("." , "P", "S")  or  <<"br", k>> its replacement                *)
-(* Fragment: words without length and tone (the renderer's treatment of those is not specified enough in     *)
-(* the manual to be an oracle).                                                                              *)
+(*   <<"t", n>> the tone digits of a syllable                                                               *)
+(* Fragment: words without length (the renderer's treatment of long segments under `+` is not specified       *)
+(* enough in the manual to be an oracle). A word typed in americanist notation keeps that notation for the   *)
+(* segments no romaniser replaces (the harness spells "g" tokens accordingly).                               *)
 EXTENDS Scan
 
 IsBoundAlias(a) == Len(a.inp) = 1 /\ a.inp[1].k = "sb"
 \* does alias a match the segments g starting at position j
-\* an element may carry stress modifiers (`V:[+stress, -sec.stress]`): they are tested on the syllable the segment is in (Supra!MatchStr)
+\* an element may carry stress and tone modifiers (`V:[+stress, -sec.stress]`, `a:[tone: 55]`): they are tested on the syllable the segment is in
+\* (Supra!MatchStr / MatchTone). A romaniser that names a tone and fires in a syllable has "used up" that syllable's tone: the digits are not printed
+\* (manual: `xan:[tone: 51] => 汉`, `han51.y214` becomes `汉语`); the tones of other syllables are untouched.
 SegFm(fm) == SelectSeq(fm, LAMBDA m : m[1] \in {"f", "n"})
-StressOK(fm, st) == \A i \in 1..Len(fm) : fm[i][1] = "s" =>
-                       (IF fm[i][2] = "stress" THEN (st # "U") = fm[i][3] ELSE IF fm[i][2] = "sec.stress" THEN (st = "S") = fm[i][3] ELSE TRUE)
-ElemMatchS(e, s, st) == ElemMatch([e EXCEPT !.fm = SegFm(e.fm)], s) /\ StressOK(e.fm, st)
-MatchesAt(a, g, j, st) == ~IsBoundAlias(a) /\ j + Len(a.inp) - 1 <= Len(g) /\ \A i \in 1..Len(a.inp) : ElemMatchS(a.inp[i], g[j + i - 1], st)
-FirstAlias(as, g, j, st) == LET S == { i \in 1..Len(as) : MatchesAt(as[i], g, j, st) } IN IF S = {} THEN 0 ELSE CHOOSE i \in S : \A k \in S : i <= k
-RECURSIVE RomSyl(_, _, _, _)
-RomSyl(as, g, j, st) ==
+SupraOK(fm, st, t) == \A i \in 1..Len(fm) :
+                        CASE fm[i][1] = "s" -> (IF fm[i][2] = "stress" THEN (st # "U") = fm[i][3] ELSE IF fm[i][2] = "sec.stress" THEN (st = "S") = fm[i][3] ELSE TRUE)
+                          [] fm[i][1] = "t" -> t = fm[i][2]
+                          [] OTHER -> TRUE
+ElemMatchS(e, s, st, t) == ElemMatch([e EXCEPT !.fm = SegFm(e.fm)], s) /\ SupraOK(e.fm, st, t)
+NamesTone(a) == \E i \in 1..Len(a.inp) : \E k \in 1..Len(a.inp[i].fm) : a.inp[i].fm[k][1] = "t"
+MatchesAt(a, g, j, st, t) == ~IsBoundAlias(a) /\ j + Len(a.inp) - 1 <= Len(g) /\ \A i \in 1..Len(a.inp) : ElemMatchS(a.inp[i], g[j + i - 1], st, t)
+FirstAlias(as, g, j, st, t) == LET S == { i \in 1..Len(as) : MatchesAt(as[i], g, j, st, t) } IN IF S = {} THEN 0 ELSE CHOOSE i \in S : \A k \in S : i <= k
+RECURSIVE RomSyl(_, _, _, _, _)
+RomSyl(as, g, j, st, t) ==
   IF j > Len(g) THEN <<>>
-  ELSE LET i == FirstAlias(as, g, j, st) IN
-       IF i = 0 THEN <<<<"g", g[j]>>>> \o RomSyl(as, g, j + 1, st)
+  ELSE LET i == FirstAlias(as, g, j, st, t) IN
+       IF i = 0 THEN <<<<"g", g[j]>>>> \o RomSyl(as, g, j + 1, st, t)
        ELSE LET a == as[i]  n == Len(a.inp) IN
             (IF a.plus THEN [x \in 1..n |-> <<"g", g[j + x - 1]>>] ELSE <<>>)
             \o (IF a.out = 0 THEN <<>> ELSE <<<<"r", a.out>>>>)
-            \o RomSyl(as, g, j + n, st)
+            \o RomSyl(as, g, j + n, st, t)
+\* did a tone-naming romaniser fire somewhere in the syllable (same walk as RomSyl)
+RECURSIVE ToneUsed(_, _, _, _, _)
+ToneUsed(as, g, j, st, t) ==
+  IF j > Len(g) THEN FALSE
+  ELSE LET i == FirstAlias(as, g, j, st, t) IN
+       IF i = 0 THEN ToneUsed(as, g, j + 1, st, t) ELSE NamesTone(as[i]) \/ ToneUsed(as, g, j + Len(as[i].inp), st, t)
 BoundAlias(as) == LET S == { i \in 1..Len(as) : IsBoundAlias(as[i]) } IN IF S = {} THEN 0 ELSE CHOOSE i \in S : \A k \in S : i >= k     \* the last one wins
 Mark(w, i) == CASE w.s[i].st = "P" -> "P" [] w.s[i].st = "S" -> "S" [] OTHER -> IF i > 1 THEN "." ELSE ""
 RECURSIVE RomWord(_, _, _)
 RomWord(as, w, i) ==
   IF i > Len(w.s) THEN <<>>
-  ELSE LET m == Mark(w, i) IN (IF m = "" THEN <<>> ELSE <<<<"b", m>>>>) \o RomSyl(as, w.s[i].g, 1, w.s[i].st) \o RomWord(as, w, i + 1)
+  ELSE LET m == Mark(w, i) IN (IF m = "" THEN <<>> ELSE <<<<"b", m>>>>) \o RomSyl(as, w.s[i].g, 1, w.s[i].st, w.s[i].t)
+                                                               \o (IF w.s[i].t # 0 /\ ~ToneUsed(as, w.s[i].g, 1, w.s[i].st, w.s[i].t) THEN <<<<"t", w.s[i].t>>>> ELSE <<>>)
+                                                               \o RomWord(as, w, i + 1)
 \* the boundary alias rewrites the marks of the finished text: a stress mark at the very beginning is dropped
 \* (when the replacement is not empty), every other mark becomes the replacement string (or disappears)
 Rebound(toks, b, as) ==
